@@ -37,7 +37,8 @@ def labelKey (l : String) : Option Nat :=
 
 def kindOf (s : String) : Option RKind :=
   match s with
-  | "oc" => some .oc | "to" => some .to | "cs" => some .cs | "br" => some .br | "an" => some .an
+  | "oc" => some .oc | "to" => some .to | "ic" => some .ic | "su" => some .su
+  | "cs" => some .cs | "br" => some .br | "an" => some .an
   | _ => none
 
 /-- `C=[h10:oc:0:0,commit:cs:0:1]` → association list with labels. -/
@@ -118,8 +119,9 @@ structure St where
   caseId : String := ""
   scn : String := ""
   crashed : Bool := false
-  spec : Spec := { close := .coop, near := false, hasRes := false, contracts := [],
+  spec : Spec := { close := .coop, closeHeight := 0, delta := 0, contracts := [],
                    dustFails := [], danglingFails := [], breachFails := [], finalFails := [] }
+  h0 : Nat := 0
   sys : Sys := {}
   started : Bool := false
   modelOk : Bool := true
@@ -129,7 +131,23 @@ structure St where
   -- monitor, per case
   prev : Snap := { st := 0, res := false, cs := false, contracts := [] }
   deleted : List String := []
-  causes : List String := []
+  causes : List String := []          -- statistics only (which windows a case visited)
+  /-- state of the log at the START of the current incarnation, its number -/
+  epochNo : Nat := 0
+  epochStartSt : Nat := 0
+  /-- last START that found the log in StateContractClosed: incarnation number, labels already
+      deleted before it -/
+  ccEpoch : Option Nat := none
+  ccDeleted : List String := []
+  ccPresent : List String := []
+  /-- labels whose stored record changed (or appeared / disappeared) since that START -/
+  touchedSinceCC : List String := []
+  /-- labels overwritten with less progress / re-inserted by the re-executed insert -/
+  overwritten : List String := []
+  /-- labels found `resolved` in the log at some START -/
+  resolvedAtStart : List String := []
+  /-- a START found StateDefault, not pending close, commit set already logged -/
+  f2Window : Bool := false
   caseFails : Nat := 0
   sawWrite : Bool := false
   -- crash-free outcomes per scenario
@@ -150,8 +168,10 @@ def mismatch (s : St) (detail : String) : IO St := do
 def causeStr (s : St) : String :=
   if s.causes.isEmpty then "none" else "+".intercalate s.causes
 
-def monitor (s : St) (clause symptom detail : String) : IO St := do
-  IO.println s!"MONITOR case={s.caseId} clause={clause} cause={causeStr s} symptom={symptom} line={s.lines} {detail}"
+/-- `cause` names the recorded defect that explains THIS line (or `none`); it is decided per
+    line from the trace, never inherited from other stops of the case. -/
+def monitor (s : St) (clause symptom detail : String) (cause : String := "none") : IO St := do
+  IO.println s!"MONITOR case={s.caseId} clause={clause} cause={cause} symptom={symptom} line={s.lines} {detail}"
   let s := bump s s!"fail_{clause}"
   return { s with monitorFails := s.monitorFails + 1, caseFails := s.caseFails + 1 }
 
@@ -168,7 +188,10 @@ def tauMain (sp : Spec) (s : Sys) : Option Sys :=
     | .stay => mainStep sp s
     | _ => none
   | .idle =>
-    if !eventReady s && s.mem == .waitingFull && s.log.contracts.isEmpty then mainStep sp s else none
+    if !eventReady s && s.mem == .waitingFull && s.log.contracts.isEmpty then mainStep sp s
+    else if !eventReady s && s.mem == .default && !s.chan.pendingClose && nearAt sp s.facts.height then
+      mainStep sp s
+    else none
   | _ => none
 
 def tauRes (sp : Spec) (s : Sys) : Option Sys :=
@@ -306,34 +329,96 @@ def finalOf (ws : List String) (panic : Bool) (prev : Snap) : Final :=
     finals := parseList ws "final"
     panic := panic }
 
-/-- same_outcome: compare a run with stops against the uninterrupted run. -/
+/-- label of the contract a report / message belongs to: `h10/2:2:3` → `h10`. -/
+def reportLabel (r : String) : String :=
+  let l := (r.splitOn ":").headD ""
+  if l.endsWith "/2" then dropEndN l 2 else l
+
+def htlcLabelOfIdx (sp : Spec) (m : String) : Option String :=
+  match (idxOf m).toNat? with
+  | some i => (sp.contracts.find? fun c => c.kind.isHtlc && c.idx == i).map fun c => s!"h{c.key}"
+  | none => none
+
+def isHtlcLabel (sp : Spec) (l : String) : Bool :=
+  match labelKey l with
+  | some k => sp.contracts.any fun c => c.key == k && c.kind.isHtlc
+  | none => false
+
+/-- F3c explains label `l`: the last restart found `StateContractClosed`, no htlc was inside the
+    broadcast window at the closing height, `l` is an htlc contract that was not resolved before
+    that restart and whose stored record nobody touched (or created) since; there was no later
+    restart that would have relaunched it. -/
+def skippedByChainTrigger (s : St) (l : String) : Bool :=
+  match s.ccEpoch with
+  | some e => !(nearAt s.spec s.spec.closeHeight) && isHtlcLabel s.spec l &&
+              !s.touchedSinceCC.contains l && !s.ccDeleted.contains l &&
+              -- never inserted at all, or stored but not launched and no later restart relaunched it
+              (!s.ccPresent.contains l || e == s.epochNo)
+  | none => false
+
+def anySkipped (s : St) : Bool :=
+  s.spec.contracts.any fun c => c.kind.isHtlc && skippedByChainTrigger s s!"h{c.key}"
+
+/-- same_outcome: compare a run with stops against the uninterrupted run.  One MONITOR line per
+    diverging item, each with the recorded defect that explains THAT item (or `none`). -/
 def compareFinal (s : St) (b f : Final) : IO St := do
   let mut s := s
   if f.panic then
-    s ← monitor s "same_outcome" "panic" "the arbitrator process panics after the restart (and will again on every start)"
+    let cause := if !s.overwritten.isEmpty then "reexec_overwrite" else "none"
+    s ← monitor s "same_outcome" "panic" "the arbitrator process panics after the restart (and will again on every start)" cause
     return s
   if contradictory f.msgs then
     s ← monitor s "same_outcome" "contradictory_upstream" s!"upstream resolutions {f.msgs}"
   if b.closed && !f.closed then
-    let cs := ",".intercalate (f.contracts.map fun (l, r) => s!"{l}:{if r.resolved then "resolved" else "open"}")
-    let sym := if f.contracts.any (·.2.resolved) then "stuck_resolved_record" else "stuck"
-    s ← monitor s "same_outcome" sym s!"uninterrupted run ends fully resolved; this run stays in state {f.last} with unresolved=[{cs}]"
+    if f.contracts.isEmpty then
+      s ← monitor s "same_outcome" "stuck:-" s!"uninterrupted run ends fully resolved; this run stays in state {f.last} with an empty log"
+    for (l, r) in f.contracts do
+      if r.resolved then
+        let cause := if s.resolvedAtStart.contains l then "resolved_not_deleted" else "none"
+        s ← monitor s "same_outcome" s!"stuck_resolved_record:{l}" s!"uninterrupted run ends fully resolved; this run stays in state {f.last}, resolver {l} is resolved but never deleted" cause
+      else
+        let cause :=
+          if skippedByChainTrigger s l then "chaintrigger_restart"
+          else if s.overwritten.contains l && r.kind == .oc then "reexec_overwrite"
+          else "none"
+        s ← monitor s "same_outcome" s!"stuck:{l}" s!"uninterrupted run ends fully resolved; this run stays in state {f.last}, resolver {l} never resolves" cause
   else if b.closed != f.closed || b.last != f.last then
     s ← monitor s "same_outcome" "terminal_state" s!"terminal closed={f.closed} state={f.last}, uninterrupted closed={b.closed} state={b.last}"
-  let missM := diff b.msgs f.msgs
-  let extraM := diff f.msgs b.msgs
-  if !missM.isEmpty then
-    s ← monitor s "same_outcome" s!"upstream_missing:{",".intercalate missM}" s!"upstream resolutions never delivered; delivered={f.msgs}"
-  if !extraM.isEmpty then
-    s ← monitor s "same_outcome" s!"upstream_extra:{",".intercalate extraM}" s!"upstream resolutions not delivered by the uninterrupted run"
-  let missR := diff b.reports f.reports
-  let extraR := diff f.reports b.reports
-  if !missR.isEmpty && f.closed then
-    s ← monitor s "same_outcome" s!"unresolved:{",".intercalate missR}" "channel marked fully resolved but these contract outcomes of the uninterrupted run were never reached"
-  if !extraR.isEmpty then
-    s ← monitor s "same_outcome" s!"outcome_differs:{",".intercalate extraR}" "contract outcome not present in the uninterrupted run"
-  if diff b.finals f.finals != [] || diff f.finals b.finals != [] then
-    s ← monitor s "same_outcome" "final_htlc" s!"final htlc outcomes {f.finals} vs {b.finals}"
+  for m in diff b.msgs f.msgs do
+    let cause :=
+      match htlcLabelOfIdx s.spec m with
+      | some l =>
+        if skippedByChainTrigger s l then "chaintrigger_restart"
+        else if s.overwritten.contains l then "reexec_overwrite"
+        else "none"
+      | none =>
+        if s.f2Window && m.endsWith ":fail" &&
+           (match (idxOf m).toNat? with | some i => s.spec.dustFails.contains i | none => false)
+        then "default_with_commitset" else "none"
+    s ← monitor s "same_outcome" s!"upstream_missing:{m}" s!"upstream resolution never delivered; delivered={f.msgs}" cause
+  for m in diff f.msgs b.msgs do
+    s ← monitor s "same_outcome" s!"upstream_extra:{m}" "upstream resolution not delivered by the uninterrupted run"
+  if f.closed then
+    for r in diff b.reports f.reports do
+      let l := reportLabel r
+      let cause :=
+        if skippedByChainTrigger s l then "chaintrigger_restart"
+        else if l == "anchor" && anySkipped s then "chaintrigger_restart"
+        else "none"
+      s ← monitor s "same_outcome" s!"unresolved:{r}" "channel marked fully resolved but this contract outcome of the uninterrupted run was never reached" cause
+  for r in diff f.reports b.reports do
+    s ← monitor s "same_outcome" s!"outcome_differs:{r}" "contract outcome not present in the uninterrupted run"
+  for x in diff b.finals f.finals do
+    let cause :=
+      match (idxOf x).toNat? with
+      | some i =>
+        if s.spec.finalFails.contains i then
+          (if s.ccEpoch.isSome && !(nearAt s.spec s.spec.closeHeight) then "chaintrigger_restart" else "none")
+        else if skippedByChainTrigger s s!"h{i}" then "chaintrigger_restart" else "none"
+      | none => "none"
+    s ← monitor s "same_outcome" s!"final_missing:{x}" s!"final htlc outcome never recorded; recorded={f.finals}" cause
+  for x in diff f.finals b.finals do
+    s ← monitor s "same_outcome" s!"final_extra:{x}" "final htlc outcome not recorded by the uninterrupted run"
   return s
 
 /-- resolved_last / no_progress_lost on one observed write. -/
@@ -342,24 +427,43 @@ def monitorWrite (s : St) (sn : Snap) (isFullyClosedMark : Bool) : IO St := do
   let prev := s.prev
   if isFullyClosedMark then
     if !prev.contracts.isEmpty then
-      s ← monitor s "resolved_last" "marked_with_unresolved" s!"channel marked fully resolved while the log holds {prev.contracts.map (·.1)}"
+      s ← monitor s "resolved_last_log" "marked_with_unresolved" s!"channel marked fully resolved while the log holds {prev.contracts.map (·.1)}"
     if prev.st != 4 then
-      s ← monitor s "resolved_last" "marked_before_state" s!"channel marked fully resolved in state {prev.st}"
+      s ← monitor s "resolved_last_log" "marked_before_state" s!"channel marked fully resolved in state {prev.st}"
+    -- the property's clause: every stateful contract of the channel was resolved (and deleted)
+    for c in s.spec.contracts do
+      if c.kind.persisted then
+        let l := if c.kind.isHtlc then s!"h{c.key}" else
+                 (if c.kind == .cs then "commit" else if c.kind == .br then "breach" else s!"k{c.key}")
+        if !s.deleted.contains l then
+          let cause := if skippedByChainTrigger s l then "chaintrigger_restart" else "none"
+          s ← monitor s "resolved_last" s!"marked_without:{l}" s!"channel marked fully resolved, contract {l} was never resolved" cause
     return s
   if sn.st == 4 && prev.st != 4 then
     if !prev.contracts.isEmpty || !sn.contracts.isEmpty then
-      s ← monitor s "resolved_last" "state_with_unresolved" s!"StateFullyResolved committed while the log holds {prev.contracts.map (·.1)}"
+      s ← monitor s "resolved_last_log" "state_with_unresolved" s!"StateFullyResolved committed while the log holds {prev.contracts.map (·.1)}"
   if sn.st == 0 && !sn.res && prev.st != 0 then
     -- WipeHistory
     return { s with prev := sn }
+  -- the write is the re-executed InsertUnresolvedContracts of an incarnation that found the log in
+  -- StateContractClosed: state still ContractClosed before and after, first insert of the incarnation
+  let reexec := s.epochNo > 1 && s.epochStartSt == 2 && prev.st == 2 && sn.st == 2 &&
+                s.ccEpoch == some s.epochNo
+  let mut touched : List String := []
   for (l, r) in sn.contracts do
     match prev.contracts.find? (·.1 == l) with
     | some (_, o) =>
+      if r != o then touched := l :: touched
       if progressOf r < progressOf o then
-        s ← monitor s "no_progress_lost" s!"regress:{l}" s!"stored resolver {l} replaced: progress {progressOf o} -> {progressOf r}"
+        let cause := if reexec then "reexec_overwrite" else "none"
+        if reexec then s := { s with overwritten := l :: s.overwritten }
+        s ← monitor s "no_progress_lost" s!"regress:{l}" s!"stored resolver {l} replaced: progress {progressOf o} -> {progressOf r}" cause
     | none =>
+      touched := l :: touched
       if s.deleted.contains l then
-        s ← monitor s "no_progress_lost" s!"reinserted:{l}" s!"resolver {l} was resolved and deleted before, and is inserted again"
+        let cause := if reexec then "reexec_overwrite" else "none"
+        if reexec then s := { s with overwritten := l :: s.overwritten }
+        s ← monitor s "no_progress_lost" s!"reinserted:{l}" s!"resolver {l} was resolved and deleted before, and is inserted again" cause
   let gone := (prev.contracts.map (·.1)).filter fun l => !(sn.contracts.any (·.1 == l))
   -- a resolver may only disappear once it is resolved
   for l in gone do
@@ -368,7 +472,8 @@ def monitorWrite (s : St) (sn : Snap) (isFullyClosedMark : Bool) : IO St := do
       if !o.resolved then
         s ← monitor s "no_progress_lost" s!"dropped:{l}" s!"unresolved resolver {l} removed from the log"
     | none => pure ()
-  return { s with prev := sn, deleted := s.deleted ++ gone }
+  return { s with prev := sn, deleted := s.deleted ++ gone,
+                  touchedSinceCC := s.touchedSinceCC ++ touched ++ gone }
 
 /-! ### line dispatch -/
 
@@ -377,7 +482,6 @@ def specContract (ws : List String) : Option Contract := do
   let k ← labelKey l
   let kd ← (kv? ws "kind").bind kindOf
   pure { key := k, kind := kd, twoStage := kv? ws "two" == some "1",
-         remoteClaims := kv? ws "claims" == some "1",
          idx := (kvNat? ws "idx").getD 0, expiry := (kvNat? ws "expiry").getD 0 }
 
 def closeKindOf (s : String) : CloseKind :=
@@ -408,11 +512,15 @@ def step (s : St) (line : String) : IO St := do
     let crashed := (kv? rest "crash").getD "none" != "none"
     let s := { s with caseId := id, scn := (kv? rest "scn").getD "?", crashed := crashed,
                       cases := s.cases + 1, started := false, modelOk := true,
-                      spec := { close := .coop, near := false, hasRes := false, contracts := [],
+                      spec := { close := .coop, closeHeight := 0, delta := 0, contracts := [],
                                 dustFails := [], danglingFails := [], breachFails := [], finalFails := [] },
+                      h0 := (kvNat? rest "h0").getD 0,
                       sys := {}, pendMsgs := [], pendFinals := [], strayMsgs := [],
                       prev := { st := 0, res := false, cs := false, contracts := [] },
-                      deleted := [], causes := [], caseFails := 0, sawWrite := false }
+                      deleted := [], causes := [], caseFails := 0, sawWrite := false,
+                      epochNo := 0, epochStartSt := 0, ccEpoch := none, ccDeleted := [], ccPresent := [],
+                      touchedSinceCC := [], overwritten := [], resolvedAtStart := [],
+                      f2Window := false }
     if s.samples < 4 && crashed then
       IO.println s!"SAMPLE {line}"
       return { s with samples := s.samples + 1 }
@@ -430,9 +538,14 @@ def step (s : St) (line : String) : IO St := do
   | "SPEC" :: "final" :: rest =>
     return { s with spec := { s.spec with finalFails := s.spec.finalFails ++ [(kvNat? rest "idx").getD 0] } }
   | "SPEC" :: "close" :: rest =>
-    return { s with spec := { s.spec with close := closeKindOf ((kv? rest "kind").getD "coop"),
-                                          near := kv? rest "near" == some "1",
-                                          hasRes := kv? rest "res" == some "1" } }
+    let s := { s with spec := { s.spec with close := closeKindOf ((kv? rest "kind").getD "coop"),
+                                            closeHeight := (kvNat? rest "height").getD 0,
+                                            delta := (kvNat? rest "delta").getD 0 } }
+    -- the resolver kind of an outgoing htlc follows from its expiry and the closing height
+    let bad := s.spec.contracts.filter fun c =>
+      c.kind.isOut && (c.kind == .to) != decide (s.spec.closeHeight + s.spec.delta ≥ c.expiry)
+    if bad.isEmpty then return s
+    else mismatch s s!"resolver kind of {bad.map (·.key)} does not follow from expiry/closing height"
   | "START" :: rest =>
     let ep := (kvNat? rest "ep").getD 0
     let none_ := rest.contains "none"
@@ -440,7 +553,14 @@ def step (s : St) (line : String) : IO St := do
     let pending := kv? rest "pending" == some "true"
     -- monitor: stop windows, from the implementation's own durable state
     let mut s := s
+    s := { s with epochNo := ep, epochStartSt := stc }
     if ep > 1 then
+      if stc == 2 && !none_ then
+        s := { s with ccEpoch := some ep, ccDeleted := s.deleted, touchedSinceCC := [],
+                      ccPresent := s.prev.contracts.map (·.1) }
+      let res := (s.prev.contracts.filter (·.2.resolved)).map (·.1)
+      s := { s with resolvedAtStart := s.resolvedAtStart ++ res }
+      if stc == 0 && !pending && s.prev.cs && !none_ then s := { s with f2Window := true }
       if stc == 2 then
         s := addCause s "restart_in_contract_closed"
         let progressed := s.prev.contracts.any (fun (l, r) =>
@@ -452,7 +572,7 @@ def step (s : St) (line : String) : IO St := do
       if s.prev.contracts.any (·.2.resolved) then s := addCause s "resolved_not_deleted"
       if stc == 0 && !pending && s.prev.cs && !none_ then s := addCause s "default_with_commitset"
     -- model
-    let sys' := if ep ≤ 1 then ({} : Sys) else restart s.sys
+    let sys' := if ep ≤ 1 then ({ facts := { height := s.h0 }, trigH := s.h0 } : Sys) else restart s.sys
     s := { s with sys := sys', started := true, pendMsgs := [], pendFinals := [],
                   strayMsgs := s.strayMsgs ++ s.pendMsgs }
     s := bump s "starts"
@@ -481,18 +601,26 @@ def step (s : St) (line : String) : IO St := do
   | "ENV" :: _ => return s
   | "X" :: "spend" :: l :: _ =>
     let (base, second) := if l.endsWith "/2" then (dropEndN l 2, true) else (l, false)
+    let by_ : SpendKind := if ws.contains "ours=true" then .ours else .remote
     match labelKey base with
     | some k =>
-      let f := if second then Fact.spend2 k else Fact.spend1 k
+      let f := if second then Fact.spend2 k else Fact.spend1 k by_
       return norm { s with sys := { s.sys with facts := s.sys.facts.add f } }
     | none => mismatch s s!"unknown label {l}"
+  | "X" :: "preimage" :: l :: _ =>
+    match labelKey l with
+    | some k => return norm { s with sys := { s.sys with facts := s.sys.facts.add (.preimage k) } }
+    | none => mismatch s s!"unknown label {l}"
+  | "K" :: _ => return bump s "effect_stop_points"
   | "M" :: rest =>
     let idx := (kvNat? rest "idx").getD 0
     let settle := rest.contains "settle"
     let s := { s with evaluations := s.evaluations + 1 }
     -- every upstream resolution must be one the chain dictates (model side)
-    let s ← if (expectedMsgs s.spec).contains (idx, settle) then pure s
-            else mismatch s s!"upstream resolution idx={idx} settle={settle} not in the model's expected set"
+    let okMsg := (!settle && (listFails s.spec).contains idx) ||
+                 s.spec.contracts.any (fun c => c.kind.isOut && c.idx == idx)
+    let s ← if okMsg then pure s
+            else mismatch s s!"upstream resolution idx={idx} settle={settle} for no htlc of the model's spec"
     return { s with pendMsgs := s.pendMsgs ++ [(idx, settle)] }
   | "F" :: rest =>
     return { s with pendFinals := s.pendFinals ++ [(kvNat? rest "idx").getD 0] }
@@ -558,7 +686,7 @@ def step (s : St) (line : String) : IO St := do
       match s.base.find? (·.1 == s.scn) with
       | some (_, b) =>
         s := { s with nontrivial := s.nontrivial + 1 }
-        s := bump s s!"window_{causeStr s}"
+        s := bump s s!"windows_{causeStr s}"
         s ← compareFinal s b f
       | none => s ← mismatch s "no uninterrupted run for this scenario"
     return s
